@@ -275,6 +275,33 @@ impl Engine for C04 {
             }
         }
 
+        // ---------------- the primitive every node-level action rests on: a refused `Names::change_name` (stated old
+        // value does not match) leaves the names as they were, so that the correct change still goes through afterwards
+        // (missed seeded change C04-14: the new value stored before the old one is compared)
+        {
+            use quill::tree::names::Namespace;
+            let mut q: Q = q_of(&p.states[0]);
+            if let (Ok(ns), Some(c)) = (Namespace::<2>::new(1), q.classes.values_mut().next()) {
+                let before = c.info.names[ns].clone();
+                let wrong: duke::tree::class::ObjClassName = java_string::JavaString::from("verif/NotTheOldName".to_string()).try_into().expect("name");
+                let new: duke::tree::class::ObjClassName = java_string::JavaString::from("verif/New".to_string()).try_into().expect("name");
+                if before.as_ref() != Some(&wrong) {
+                    st.probe("change_name_refusal");
+                    match no_panic(|| c.info.names.change_name(ns, Some(&wrong), Some(&new))) {
+                        Err(pm) => out.push(Violation::new("T0", "panic", format!("change_name:{}", panic_path(&pm)), pm)),
+                        Ok(Ok(_)) => out.push(Violation::new("T0", "accepted-inconsistent-diff", "change_name", "an edit whose stated old name does not match was accepted")),
+                        Ok(Err(_)) => {
+                            if c.info.names[ns] != before {
+                                out.push(Violation::new("T0", "residue-after-heal", "change_name.refused", format!("the refused edit changed the name anyway: {:?} -> {:?}", before, c.info.names[ns])));
+                            } else if let Ok(Err(e)) = no_panic(|| c.info.names.change_name(ns, before.as_ref(), Some(&new))) {
+                                out.push(Violation::new("T0", "residue-after-heal", "change_name.after-refusal", format!("the correct edit after a refused one fails: {e:#}")));
+                            }
+                        }
+                    }
+                }
+            }
+        }
+
         // ---------------- one line of the first diff's text one tab too deep
         if p.over_indent != 0 && k >= 1 {
             let d1 = ref_diff(&p.states[0], &p.states[1]).expect("generated states are diffable");
